@@ -1,5 +1,6 @@
 SPECIFICATION Spec
 CONSTANTS
+  Aborters = {}
   NT = 3
   Rounds = 1
   Variant = "code"
